@@ -212,7 +212,7 @@ theorem pr_readPage_unfold (r : PR) (p : Nat) :
         let bs := (r.dev.data.drop (p * r.pageSize)).take r.pageSize
         let dev2 : Dev := ⟨r.dev.data, p * r.pageSize + bs.length⟩
         if bs.length < r.pageSize then
-          ({ r with dev := dev2, page := bs ++ r.page.drop bs.length }, false)
+          ({ r with dev := dev2, page := bs ++ r.page.drop bs.length, pageNum := none }, false)
         else if bs.drop (r.pageSize - 4) ≠ crcBytes (bs.take (r.pageSize - 4)) then
           ({ r with dev := dev2, page := bs, pageNum := none }, false)
         else ({ r with dev := dev2, page := bs, pageNum := some p }, true) := rfl
